@@ -31,7 +31,7 @@ def plan(tier, seed):
     q = tier == "quick"
     n = 10 if q else 44
     return [{"salt": i, "random_plans": 4 if q else 16, "pairs": 3 if q else 30,
-             "frag_delay": (i % 4 == 0) if q else True, "extra_delays": [0.8] if q else [0.2, 0.5, 1.0], "n_extra": 2 if q else 4,
+             "frag_delay": (i % 4 == 0) if q else True, "long_hangs": (i % 3 == 1) if q else (i % 2 == 0), "extra_delays": [0.8] if q else [0.2, 0.5, 1.0], "n_extra": 2 if q else 4,
              "load": (not q) and i % 6 == 5} for i in range(n)]
 
 
@@ -74,7 +74,7 @@ def run_plan(b, inj, batch, fplan, base, mcs_ids, res, tag, base_dt=None, confir
     res.ev()
     res.count("plans_run")
     nf = len(fplan.get("fit") or {}) + len(fplan.get("cancel") or {}) + len(fplan.get("frag") or {}) + \
-        len(fplan.get("lines") or {})
+        len(fplan.get("lines") or {}) + len(fplan.get("inner_raise") or {})
     if nf:
         res.case([batch, fplan])
     res.add("plan_kinds", tag)
@@ -86,6 +86,8 @@ def run_plan(b, inj, batch, fplan, base, mcs_ids, res, tag, base_dt=None, confir
     for key in (fplan.get("fit") or {}):
         affected.add(key.split("/")[0])
     for key in (fplan.get("cancel") or {}):
+        affected.add(key.split("/")[0])
+    for key in (fplan.get("inner_raise") or {}):
         affected.add(key.split("/")[0])
     for key in (fplan.get("frag") or {}):
         affected.add(str(key))
@@ -138,6 +140,24 @@ def run_plan(b, inj, batch, fplan, base, mcs_ids, res, tag, base_dt=None, confir
                          differs_in=[k for k in COLS if r0.get(k) != r.get(k)], fault_free=view(r0),
                          with_fault=view(r), row_index=i, events=[list(e) for e in log[:40]], **w)
     res.add("outcome_vectors", tag + ":" + "".join(outcome))
+    if fplan.get("rerun_clean") and not confirm:
+        # state must not persist: the same batch right afterwards, without any fault, equals the fault-free run
+        inj.set_plan({})
+        rows3, _, err3 = pipeline.run(b, batch)
+        res.ev()
+        res.count("clean_reruns_after_hangs")
+        real3 = {str(e[1]) for e in inj.log if e[0] in ("search_timeout", "findmcs_really_canceled")}
+        if err3 or rows3 is None or len(rows3) != len(batch):
+            res.viol("rows_lost_in_clean_run_after_faults", **w)
+        else:
+            for i, (r0, r) in enumerate(zip(base, rows3)):
+                if str(i) in real3 or loaded:
+                    continue
+                if view(r0) != view(r):
+                    res.viol("earlier_fault_leaked_into_later_clean_run", case={"reaction": batch[i]},
+                             fault_free=view(r0), later_clean_run=view(r), row_index=i, **w)
+                    break
+        time.sleep(6.0)  # let the abandoned threads finish before the next plan
     # re-read after the zombies: returned rows must not have changed under our feet
     rows2 = [view(r) for r in rows]
     if any(a != view(b_) for a, b_ in zip(rows2, rows)):
@@ -203,6 +223,8 @@ def build_plans(rng, jobs, frag_ids, shard):
         plans.append(("cancel_all_inner", {"cancel": {k: "all" for k in mine}}))
         plans.append(("cancel_first_inner", {"cancel": {mine[0]: [0]}}))
         plans.append(("cancel_second_pass", {"cancel": {k: [1, 2, 3] for k in mine}}))
+        plans.append(("inner_step_raise_first", {"inner_raise": {k: [0] for k in mine}}))
+        plans.append(("inner_step_raise_later", {"inner_raise": {mine[0]: [1], mine[-1]: "all"}}))
     pairs = list(itertools.combinations(keys, 2))
     for a, b_ in rng.sample(pairs, min(shard["pairs"], len(pairs))):
         plans.append(("pair", {"fit": {a: [rng.choice(["delay", "raise"]), d0],
@@ -225,6 +247,11 @@ def build_plans(rng, jobs, frag_ids, shard):
     for k in rng.sample(keys, min(len(keys), 3 if shard.get("n_extra", 4) < 4 else 6)):
         for lines in ({"mcs_results": 0.4}, {"sorted_reactants": 0.4}, {"mcs_results": 0.3, "sorted_reactants": 0.6}):
             plans.append(("zombie_half_written", {"fit": {k: ["delay", d0]}, "lines": lines, "line_jobs": [k]}))
+    if frag_ids and shard.get("long_hangs"):
+        # every fragment analysis hangs long after its 2 s wait expired; the batch is then run again at once,
+        # fault-free, while the abandoned threads are still alive
+        plans.append(("frag_hang_all_then_rerun", {"frag": {rid: ["delay", 7.0] for rid in frag_ids},
+                                                   "rerun_clean": True}))
     for extra in shard["extra_delays"]:
         for k in rng.sample(keys, min(len(keys), shard.get("n_extra", 4))):
             plans.append(("single_delay_long", {"fit": {k: ["delay", extra]}}))
@@ -235,7 +262,7 @@ def build_plans(rng, jobs, frag_ids, shard):
 
 def conclude_args(res, tier, seed):
     return {"need": {"plans_run": 150, "affected_rows_judged": 150, "unaffected_rows_compared": 500,
-                     "timeouts_observed": 30, "zombie_line_delays_observed": 10},
+                     "timeouts_observed": 30, "zombie_line_delays_observed": 10, "clean_reruns_after_hangs": 2},
             "min_cases": 100,
             "extra": {"exhaustive_subspace": "per batch: every single (reaction, condition) search job x {delay, raise}, "
                       "every reaction's three conditions together, every fragment-analysis job x raise are enumerated; "
